@@ -1,4 +1,4 @@
 From Coq Require Import Extraction ExtrOcamlBasic.
 From PV Require Import Lib.ExtBase C01.FS C06.Model C07.Model.
 Extraction "model.ml" ext_base_z ext_base_n ext_base_nat ext_base_res ext_base_list
-  check_trace durable_after run_gob run_fonts tree_of_list content_of_list.
+  check_trace durable_after run_gob run_fonts run_collection tree_of_list content_of_list.
